@@ -1,19 +1,37 @@
-(* C18 Compilation is a pure function of its inputs -- PARTIAL.
+(* C18 Compilation is a pure function of its inputs.
    The compile model is a function of (file table, arguments, include list, starting counter) by
-   construction; proved in addition: anonymous names are an injective function of the counter
-   (two runs differ by a consistent renumbering fixed by the starting counter) and all names
-   defined in one emitted document are distinct (the document passes wf_pil, whose every
-   definition step requires a fresh name).  NOT provable here: that the implementation has no
-   other hidden state (module-level pyparsing configuration, in-place parameter dictionaries, set
-   iteration order, current directory); the correspondence over histories, invocation
+   construction, so the only thing an earlier compilation in the same process can change is the
+   starting value of the anonymous counter.  Proved: compiling the same component from another
+   starting value succeeds as well and yields the same object with _Anon(ctr+k) renamed to
+   _Anon(ctr'+k), the same number of anonymous sequences (C18_compile_renumber, a simulation over
+   all statements incl. the deferred wildcard and register; hypothesis: the program neither
+   defines nor mentions names of the reserved form _Anon...), and the emitted specification of the
+   renamed object is the emitted specification with the same renaming applied to every name
+   (C18_emit_renumber); anonymous names are an injective function of the counter; all names
+   defined in one emitted document are distinct.  NOT provable here: that the implementation has
+   no other hidden state (module-level pyparsing configuration, in-place parameter dictionaries,
+   set iteration order, current directory); the correspondence over histories, invocation
    directories, PYTHONHASHSEED values and back-ends decides that per case. *)
 From Coq Require Import List String.
-From PC Require Import Comp.Syntax Comp.Compile Comp.EmitProofs Comp.WfPil Hist.Purity.
+From PC Require Import Comp.Syntax Comp.Compile Comp.EmitProofs Comp.WfPil Comp.CompileProofs Hist.Purity Hist.Renumber.
 
-Theorem C18_anon_name_injective_partial : forall k k', anon_name k = anon_name k' -> k = k'.
+Theorem C18_anon_name_injective : forall k k', anon_name k = anon_name k' -> k = k'.
 Proof. exact anon_name_injective. Qed.
-Print Assumptions C18_anon_name_injective_partial.
+Print Assumptions C18_anon_name_injective.
 
 Theorem C18_names_unique_in_output : forall c, WF c -> WF2 c -> wf_pil (emit_comp c) = true.
 Proof. exact emit_wf_pil. Qed.
 Print Assumptions C18_names_unique_in_output.
+
+Theorem C18_compile_renumber : forall ctr ctr' prefix d body c ctr1, forallb stmt_pure body = true -> decl_ok d = true ->
+  compile_comp ctr prefix d body = OK (c, ctr1) ->
+  compile_comp ctr' prefix d body = OK (r_comp (rho_c ctr ctr1 ctr') c, ctr' + (ctr1 - ctr)).
+Proof. exact compile_renumber. Qed.
+Print Assumptions C18_compile_renumber.
+
+Theorem C18_emit_renumber : forall (rho : string -> string) (D : string -> Prop), (forall a b, D a -> D b -> rho a = rho b -> a = b) ->
+  (forall n, is_anon n = false -> D n /\ rho n = n) ->
+  forall c, WF c -> WF2 c -> keysD D (c_bases c) -> user_keys (c_sups c) -> user_keys (c_strands c) -> user_keys (c_structs c) ->
+  emit_comp (r_comp rho c) = map (map_line (ren_name (c_prefix c) rho)) (emit_comp c).
+Proof. exact emit_renumber. Qed.
+Print Assumptions C18_emit_renumber.
